@@ -929,6 +929,17 @@ func axisOf(v ssa.Value) (kind string, axis int, ok bool) {
 		if x.Op != token.MUL {
 			return "", 0, false
 		}
+		// *(b.minx): an optional voxel bound
+		if inner, isLd := x.X.(*ssa.UnOp); isLd && inner.Op == token.MUL {
+			if fa, isFA := inner.X.(*ssa.FieldAddr); isFA && strings.Contains(fa.X.Type().String(), "OptionalBounds") {
+				nm, _, _ := fieldName(fa)
+				if len(nm) == 4 && (strings.HasPrefix(nm, "min") || strings.HasPrefix(nm, "max")) {
+					if ax := strings.IndexByte("xyz", nm[3]); ax >= 0 {
+						return "bound", ax, true
+					}
+				}
+			}
+		}
 		ia, isIA := x.X.(*ssa.IndexAddr)
 		if !isIA {
 			return "", 0, false
